@@ -1,7 +1,7 @@
 #!/bin/bash
 # usage: tools/try_mutant.sh <patch.diff> <seconds> <id> [<id> ...]
 # applies the patch to /repo's working tree, runs the named checks, and restores the tree (git checkout) whatever happens
-patch="$1"; secs="$2"; shift 2
+patch="$(readlink -f "$1")"; secs="$2"; shift 2
 cd /repo || exit 2
 if ! git diff --quiet -- src; then echo "refusing: /repo has uncommitted changes under src"; exit 2; fi
 git apply "$patch" || { echo "patch does not apply"; exit 2; }
